@@ -302,6 +302,30 @@ pub fn c06(seed: u64, n: usize) {
         emit_invc("C06", &qy.fam, &qy.ks, &qy.pose, &prev, o);
         if qy.ks.stack.is_empty() { emit_h_iki5("C06", &qy.fam, &qy.ks.p, &qy.pose, j6); }
     }
+    // robots declared 5-DOF whose Parameters went through URDFParameters::parameters(): still 5-DOF (J6 = 0 from plain inverse)
+    for _ in 0..(n / 30).max(12) {
+        let mut found = None;
+        for _ in 0..200 { let (f, mut p) = gen_params(&mut r); p.dof = 5; if route_of(&p) == 0 { found = Some((f, p)); break; } }
+        let Some((rfam, mut p)) = found else { continue };
+        let mut ks = KSpec::bare(p);
+        let q = rand_joints(&mut r, 2.0);
+        // ... or, with limits, the whole solver came from URDFParameters::to_robot()
+        if r.chance(0.5) {
+            let mut got = false;
+            for _ in 0..400 {
+                let (_, mut p2) = gen_params(&mut r); p2.dof = 5;
+                let mut f = [0.0; 6]; let mut t = [0.0; 6];
+                for k in 0..6 { f[k] = q[k] - r.range(0.5, 1.0); t[k] = q[k] + r.range(0.5, 1.0); }
+                if route_of(&p2) == 1 && history_mode(&f, &t) < 4 { p = p2; ks = KSpec::bare(p); ks.cons = Some((f, t, 0.0)); got = true; break; }
+            }
+            if !got { continue; }
+        }
+        let pose = ks.build().forward(&q);
+        let fam = format!("{}/dof5-via-urdf-{}", rfam, if ks.cons.is_some() { "to_robot" } else { "parameters" });
+        emit_inv("C06", &fam, &ks, &pose, Some(&q));
+        let mut prev = rand_joints(&mut r, PI); prev[5] = *r.pick(&[0.0, 2.5, -1.0]);
+        emit_invc("C06", &fam, &ks, &pose, &prev, Some(&q));
+    }
     // the 5-DOF entry points of a robot with shape delegate to the 5-DOF entry points of its stack (J6 as requested)
     crate::props_coll::kws_cases("C06", &mut r, (n / 60).max(12), &[2, 3], false);
 }
